@@ -48,6 +48,12 @@ def cases(tier, seed, i, n):
                         if tier == 'quick' and size > 70000 and k % 3:
                             continue
                         yield dict(kind='sim', tls=tls, size=size, shape=shape, rec=rec, short=short, nb=2 if shape != 'ends-with-empty' else 4, seed=k)
+        for via in ('https-proxy', 'http-proxy'):
+            for size in (1000, 16384, 20000, 70000):
+                for shape in ('one-message', 'many-small', 'ends-with-empty'):
+                    for rec, short in ((16384, None), (16384, 100), (16384, 4096), (1000, 7)):
+                        k += 1
+                        yield dict(kind='sim', tls=True, via=via, size=size, shape=shape, rec=rec, short=short, nb=2, seed=k)
         for _ in range(300 if tier == 'quick' else 8000):
             tls = rnd.random() < 0.6
             yield dict(kind='sim', tls=tls, size=rnd.choice(SIZES + (5, 300, 20000, 70000)),
@@ -158,9 +164,22 @@ def run_case(case, acc):
         steps.append(('eof',))
     tls = case['tls']
     horizon = bursts[-1][0] + 11.0
-    w = H.World(H.hs_server(steps), horizon=horizon, stop_at=horizon, tls_records=case.get('rec'), tls_short=case.get('short'),
+    via = case.get('via')
+    factory = H.hs_server(steps)
+    url = 'wss://example.com/' if tls else 'ws://example.com/'
+    wskw = dict(proxies={})
+    if via == 'https-proxy':
+        # plain ws:// target, but the hop to the proxy is TLS: the TLS layer is there although the URL is not wss
+        url = 'ws://example.com/'
+        wskw = dict(proxies={'http': 'https://proxy.local:8443'})
+    elif via == 'http-proxy':
+        url = 'wss://example.com/'
+        wskw = dict(proxies={'https': 'http://proxy.local:3128'})
+    if via:
+        factory = lambda _i: simnet.ScriptServer([('proxy', b'HTTP/1.1 200 Connection established\r\n\r\n'), ('hs', {})] + steps)   # noqa
+    w = H.World(factory, horizon=horizon, stop_at=horizon, tls_records=case.get('rec'), tls_short=case.get('short'),
                 budget=400000)
-    run = H.drive(w, url='wss://example.com/' if tls else 'ws://example.com/', connect_kwargs=dict(ping_rate=0, poll=5.0))
+    run = H.drive(w, url=url, ws_kwargs=wskw, connect_kwargs=dict(ping_rate=0, poll=5.0))
     acc.count2('oracle', 'tls_runs' if tls else 'plain_runs')
     key = None
     detail = dict(end=run.end, exc=run.exc, blocked_waits=w.blocked_waits, blocked_with_pending=w.blocked_with_pending[:5],
@@ -187,11 +206,11 @@ def run_case(case, acc):
             # automatic pongs written at the instant their ping arrived
             ping_times = [bursts[b][0] for e, b in expected if e[0] == 'ping']
             pong_times = []
-            first = True
+            skip = 2 if case.get('via') else 1       # CONNECT (if any) and the upgrade request
             for e in w.log:
                 if e[0] == 'sendall':
-                    if first:
-                        first = False
+                    if skip:
+                        skip -= 1
                         continue
                     pong_times.append(e[1])
             if len(pong_times) != len(ping_times) or any(abs(a - b) > 1e-9 for a, b in zip(pong_times, ping_times)):
@@ -202,7 +221,7 @@ def run_case(case, acc):
                       case, detail)
     else:
         sc = 'S' if case['size'] < 16384 else ('R' if case['size'] < 65536 else 'B')
-        acc.cls('%s/rec%s/short%s/%s%d/%s/nb%d' % ('tls' if tls else 'tcp', case.get('rec'), case.get('short'), sc, case['size'],
+        acc.cls('%s%s/rec%s/short%s/%s%d/%s/nb%d' % ('tls' if tls else 'tcp', '-via-' + case['via'] if case.get('via') else '', case.get('rec'), case.get('short'), sc, case['size'],
                                                    case['shape'], case['nb']))
         if acc.evaluations % 131 == 1:
             acc.sample(dict(tls=tls, size=case['size'], shape=case['shape'], rec=case.get('rec'), short=case.get('short'),
